@@ -92,6 +92,14 @@ type Case struct {
 	Early bool `json:"early,omitempty"`
 	Ghost bool `json:"ghost,omitempty"`
 
+	// FirstScrapers > 0 (concurrent cases): before anything else, on each of
+	// FirstReps fresh exporters, all measurements are recorded and then
+	// FirstScrapers Gather calls are released together as the FIRST scrapes of
+	// that exporter (FirstPerturb[g] perturbs the start of scraper g).
+	FirstScrapers int   `json:"first_scrapers,omitempty"`
+	FirstReps     int   `json:"first_reps,omitempty"`
+	FirstPerturb  []int `json:"first_perturb,omitempty"`
+
 	Conc        bool `json:"conc"`
 	Gatherers   int  `json:"gatherers,omitempty"`    // concurrent cases: goroutines calling Gather
 	ScrapesEach int  `json:"scrapes_each,omitempty"` // Gather calls per such goroutine
@@ -392,6 +400,107 @@ func (in Inst) ntuples() int {
 	return n
 }
 
+// genConflicts adds 1..4 instruments that map to the exported family name of
+// an existing instrument but live in ANOTHER scope and differ in kind and/or
+// description and/or unit. Scope info stays on and the scopes get pairwise
+// different (name, version) pairs, so the series of the partners differ in
+// their scope labels: such a registry is one Prometheus accepts (a later
+// definition of another type is dropped, a later help text replaced).
+func genConflicts(t *rapid.T, c *Case, base, rounds int) {
+	c.NoScopeInfo = false
+	if len(c.Scopes) < 2 {
+		c.Scopes = append(c.Scopes, Scope{Name: rapid.SampledFrom(scopeNms).Draw(t, "cscope"), Version: "c1"})
+	}
+	for i := range c.Scopes {
+		for j := 0; j < i; j++ {
+			if c.Scopes[i].Name == c.Scopes[j].Name && c.Scopes[i].Version == c.Scopes[j].Version {
+				c.Scopes[i].Version = "c" + string(rune('0'+i))
+			}
+		}
+	}
+	n := rapid.IntRange(1, 4).Draw(t, "nconflicts")
+	group := make([]int, len(c.Insts)) // instruments that were made to share a family
+	for i := range group {
+		group[i] = i
+	}
+	for k := 0; k < n && len(c.Insts) < 10; k++ {
+		oi := rapid.IntRange(0, len(c.Insts)-1).Draw(t, "origin")
+		o := c.Insts[oi]
+		// a scope none of the group lives in
+		var free []int
+		for si := range c.Scopes {
+			taken := false
+			for j := range c.Insts {
+				taken = taken || (group[j] == group[oi] && c.Insts[j].Scope == si)
+			}
+			if !taken {
+				free = append(free, si)
+			}
+		}
+		if len(free) == 0 {
+			continue
+		}
+		p := genInst(t, len(c.Insts), base, len(c.Scopes), rounds, nil)
+		p.Scope = rapid.SampledFrom(free).Draw(t, "pscope")
+		group = append(group, group[oi])
+		switch rapid.IntRange(0, 3).Draw(t, "pname") {
+		case 0:
+			p.Name = variant(t, o.Name)
+		default:
+			p.Name = o.Name
+		}
+		switch rapid.IntRange(0, 3).Draw(t, "pdiff") {
+		case 0: // same kind, another description
+			p.Kind, p.Unit = o.Kind, o.Unit
+			p.Desc = o.Desc + " (other)"
+			if isObservable(p.Kind) != (p.Obs != nil) {
+				p = regenObs(t, p, rounds)
+			}
+		case 1: // another kind, same unit
+			p.Unit = o.Unit
+		}
+		if !isHist(p.Kind) || isObservable(p.Kind) {
+			p.ExpSize = 0
+		}
+		if rapid.IntRange(0, 3).Draw(t, "keepemptyhelp") != 0 {
+			// mostly conflicts between two NON-empty descriptions
+			if p.Desc == "" {
+				p.Desc = "partner help"
+			}
+			if o.Desc == "" {
+				c.Insts[oi].Desc = "origin help"
+			}
+		}
+		if p.Name == o.Name {
+			// a View is addressed by instrument name: keep views away from
+			// instruments that share one (two matching views = two streams)
+			p.ExpSize, p.ExDrop = 0, false
+			c.Insts[oi].ExpSize, c.Insts[oi].ExDrop = 0, false
+		}
+		c.Insts = append(c.Insts, p)
+	}
+}
+
+// regenObs makes Obs consistent with a kind that was changed after genInst.
+func regenObs(t *rapid.T, in Inst, rounds int) Inst {
+	in.Obs = nil
+	if isObservable(in.Kind) {
+		in.ExpSize, in.ExDrop = 0, false
+		in.Obs = make([][]int, rounds)
+		for r := range in.Obs {
+			in.Obs[r] = make([]int, in.ntuples())
+			for k := range in.Obs[r] {
+				v := genValue(t, &in)
+				if isCounter(in.Kind) && r > 0 {
+					v += in.Obs[r-1][k]
+				}
+				in.Obs[r][k] = v
+			}
+		}
+	}
+	return in
+}
+
 func sameScopeData(a, b Scope) bool {
 	if a.Name != b.Name || a.Version != b.Version || len(a.Attrs) != len(b.Attrs) {
 		return false
@@ -424,7 +533,9 @@ func sameStringSet(a, b []string) bool {
 	return true
 }
 
-func genCase(conc bool) func(t *rapid.T) Case {
+// genCase: conc = concurrent program; conflicts = percentage (tens) of cases that get
+// instruments in DIFFERENT scopes mapping to one exported family name.
+func genCase(conc bool, conflicts int) func(t *rapid.T) Case {
 	return func(t *rapid.T) Case {
 		c := Case{Conc: conc}
 		c.Legacy = rapid.Bool().Draw(t, "legacy")
@@ -488,6 +599,10 @@ func genCase(conc bool) func(t *rapid.T) Case {
 			}
 			c.Insts = append(c.Insts, genInst(t, i, base, ns, rounds, prev))
 		}
+		// (rapid favours the ends of a range: count from the middle)
+		if d := rapid.IntRange(0, 9).Draw(t, "conflicts"); (d+5)%10 < conflicts/10 {
+			genConflicts(t, &c, base, rounds)
+		}
 		var sync []int
 		for i, in := range c.Insts {
 			if !isObservable(in.Kind) {
@@ -531,6 +646,9 @@ func genCase(conc bool) func(t *rapid.T) Case {
 			c.Gatherers = rapid.IntRange(2, 4).Draw(t, "gatherers")
 			c.ScrapesEach = rapid.IntRange(1, 3).Draw(t, "scrapes")
 			c.Reps = rapid.IntRange(1, 3).Draw(t, "reps")
+			c.FirstScrapers = rapid.IntRange(2, 8).Draw(t, "firstscrapers")
+			c.FirstReps = rapid.IntRange(2, 6).Draw(t, "firstreps")
+			c.FirstPerturb = rapid.SliceOfN(rapid.SampledFrom([]int{0, 0, 0, 0, 1, 1, 2}), c.FirstScrapers, c.FirstScrapers).Draw(t, "firstperturb")
 		}
 		return c
 	}
